@@ -676,15 +676,19 @@ def check_dominates(ctx):
         ctx.check(any(isinstance(tt, ast.Call) and call_name(tt) == "self._is_in_cache_and_valid" and pol for (_, tt, pol) in conds), c, "cache is read only after _is_in_cache_and_valid() answered True")
     # writers too: a result is stored in the directory labelled by func_code.py, so the forced-execution entry point
     # must have checked (and, on a change, wiped) that label before it persists anything there
-    fc = M(ctx, "MemorizedFunc.call")
-    gfc = cfg_of(fc)
-    persist = [c for c in calls_in(fc) if call_name(c) in ("self._call", "self._after_call")]
-    chk_w = [c for c in calls_in(fc) if call_name(c) in ("self._check_previous_func_code", "self._is_in_cache_and_valid")]
-    for c in persist:
-        ctx.check(bool(chk_w) and gfc.every_path_to(gfc.nodes_of(c), gfc.nodes_of_all(chk_w)), c, "call() checks the stored source before it persists a result next to it",
-                  "call() persists its result without checking the stored source: a value computed by the edited function lands in the directory labelled with the previous source, "
-                  "and a process running the previous source gets it as a valid hit", key=MEM + "::MemorizedFunc.call::code check before persisting")
-    ctx.floor(len(persist), 1, "persisting calls in MemorizedFunc.call")
+    n_persist = 0
+    for q_, fc in ctx.repo.mod(MEM).funcs.items():
+        if not q_.startswith(("MemorizedFunc.", "AsyncMemorizedFunc.")) or q_.split(".")[-1] in ("_call", "_after_call"):
+            continue
+        gfc = cfg_of(fc)
+        persist = [c for c in calls_in(fc) if call_name(c) in ("self._call", "self._after_call", "super()._call")]
+        chk_w = [c for c in calls_in(fc) if call_name(c) in ("self._check_previous_func_code", "self._is_in_cache_and_valid")]
+        for c in persist:
+            n_persist += 1
+            ctx.check(bool(chk_w) and gfc.every_path_to(gfc.nodes_of(c), gfc.nodes_of_all(chk_w)), c, "%s checks the stored source before it persists a result next to it" % q_,
+                      "%s persists its result without checking the stored source: a value computed by the edited function lands in the directory labelled with the previous source, "
+                      "and a process running the previous source gets it as a valid hit" % q_, key=MEM + "::%s::code check before persisting" % q_)
+    ctx.floor(n_persist, 2, "persisting calls in MemorizedFunc / AsyncMemorizedFunc")
     ck = M(ctx, "MemorizedFunc.check_call_in_cache")
     rets = nodes_of_type(ck, ast.Return)
     ctx.check(len(rets) == 1 and isinstance(rets[0].value, ast.Call) and call_name(rets[0].value) == "self._is_in_cache_and_valid", rets[0] if rets else ck, "check_call_in_cache answers through _is_in_cache_and_valid")
